@@ -234,4 +234,10 @@ def run(prog, ctx):
     else:
         ctx.obligations.extend(scratch.obligations)
         ctx.findings.extend(textual)
-    check_abelian(prog, ctx)
+    ctx.rule("R10.6", "abstract evaluation: conj flips directions / negates the charge / conjugates every block; abelian dagger = conj then full "
+             "transpose; H = dagger(), T = transpose()")
+    from rules.sem_adjoint import check_abelian_semantics
+
+    check_abelian_semantics(prog, ctx)
+    # R10.0 reads the TEXT of dagger / H / T / conj: confidence only behind R10.6
+    ctx.confidence(check_abelian, ("R10.6",), "R10.0")
